@@ -38,8 +38,6 @@ M = [
  ('c12_smartobject_unref_check_then_act', 'C12', 'include/asl/Shared.h', "		if(_p && --_p->rc == 0) {\n			delete _p;\n		}", "		if(_p) { if (_p->rc == 1) delete _p; else --_p->rc; }"),
  ('c12_hashmap_dtor_check_then_act', 'C12', 'include/asl/HashMap.h', "	~HashMap()\n	{\n		if(--_rc() == 0) {", "	~HashMap()\n	{\n		if(_rc() == 1 ? true : (--_rc(), false)) {"),
  ('c12_atomic_shift_nolock', 'C12', 'include/asl/Mutex.h', "	Atomic& operator<<(const K& x)\n	{\n		Lock _(_mutex);\n", "	Atomic& operator<<(const K& x)\n	{\n"), ('c14_dec_before_serve', 'C14', 'src/SocketServer.cpp', "		_server->serve(_client);\n		_client.close();\n		{", "		--_server->_numClients;\n		_server->serve(_client);\n		_client.close();\n		++_server->_numClients;\n		{"),
- ('c14_inc_after_spawn', 'C14', 'src/SocketServer.cpp', "				++_numClients;\n				if (_sequential) {\n					serve(client);\n					client.close();\n					--_numClients;\n				}\n				else\n					new SockClientThread(this, client);",
-  "				if (_sequential) {\n					++_numClients;\n					serve(client);\n					client.close();\n					--_numClients;\n				}\n				else {\n					new SockClientThread(this, client);\n					++_numClients;\n				}"),
  ('c14_stop_cond_and', 'C14', 'src/SocketServer.cpp', "} while (_running || _numClients > 0);", "} while (_running && _numClients > 0);"),
  ('c14_handler_no_close', 'C14', 'src/SocketServer.cpp', "		_server->serve(_client);\n		_client.close();\n		{", "		_server->serve(_client);\n		{"),
  ('c14_dtor_no_join', 'C14', 'src/SocketServer.cpp', "		_thread->join(); // the accept thread still uses its Thread object and this server until it has ended\n", ""),
